@@ -61,6 +61,26 @@ def c13(work, tier, seed, replay):
         raise Inconclusive("feeder judge failed: %s\n%s" % (jr.error or jr.violated, jr.out[-3000:]))
     fails = [["FAIL", f["id"], f["name"], f["i"], f["run"], f["k"], f["sig"]] for f in map(json.loads, jr.prints("FAIL"))]
     seqfam.settle(rep, "C13", fails, events, jc)
+    # (5) "after transient failures of the log it retries and succeeds once they clear", for every feeder TYPE the omniwitness has (each brings its own
+    # fetching code: tile readers, proof builders, JSON clients): one long-running feeder follows a growing log through a front end that answers the
+    # FIRST request for every data URL (tiles, proofs) with a 503 error page and every later one normally; the witness must receive every step, with a
+    # proof an independent verifier accepts. The serverless feeder runs against the serverless-log module's own test log (sizes 1..15).
+    flaky = {}
+    for kind in ("serverless", "sumdb", "tiles", "pixel", "rekor"):
+        fp = work.path("flaky-%s.ndjson" % kind)
+        o, dt = run_driver(["tile", "-out", fp, "-pairs", "0", "-samples", "0", "-feeder", kind, "-seed", str(seed), "-workers", "4", "-chains", "6" if tier == "quick" else "60",
+                            "-fronts", "flaky,plain,flaky,gzip"], timeout=3000)
+        fevs = read_ndjson(fp)
+        jr2 = tlc(work, "Trace_Tile", cfg_text(spec="JSpec", constants={"Height": 8, "Levels": {0}, "Indices": {0}, "Widths": {1}, "TraceFile": fp},
+                                               action_constraints=["Monitor"], postcondition="Done"), name="judge-flaky-" + kind, workers=1, timeout=1800, heap="8g")
+        if not jr2.ok:
+            raise Inconclusive("judge of the feeders behind a flaky front end failed: %s\n%s" % (jr2.error or jr2.violated, jr2.out[-2000:]))
+        ff = [["FAIL", "C13", kind + "-feeder/RetriesAndSucceedsOnceTheLogsTransientFailuresClear/" + f["name"], f["i"], f["run"], f["k"], f["sig"]] for f in map(json.loads, jr2.prints("FAIL"))]
+        seqfam.settle(rep, "C13", ff, fevs, {"Height": 8})
+        flaky[kind] = {"steps": len(fevs), "through_the_flaky_front_end": sum(1 for e in fevs if "/flaky/" in e.get("run", ""))}
+        if not fevs:
+            raise Inconclusive("no growth step was observed for the %s feeder" % kind)
+    rep.cov["feeder_types_behind_a_front_end_with_transient_failures"] = flaky
     calls = [e for e in events if e["e"] == "feed.call"]
     rep.cov["evaluations"] = len(calls)
     rep.cov["traces_validated_against_impl"] = sum(1 for e in events if e["e"] == "feed.start")
